@@ -471,6 +471,9 @@ def real_cases(chk):
             # a prior that is finite outside the bounds and posterior mass at a corner of the box
             {"kind": "real", "proposal": "flow", "nlive": 40, "seed": 14 + chk.seed, "stopping": 2.0, "max_epochs": 10,
              "maximum_uninformed": 40, "full_every": 20, "variant": "flat-corner", "max_iteration": 200},
+            # the default uninformed proposal on a prior that is NaN outside its support, drawn from a wider box
+            {"kind": "real", "proposal": "rejection", "nlive": 40, "seed": 15 + chk.seed, "stopping": 2.0, "full_every": 20,
+             "variant": "nan-wide", "max_iteration": 150},
         ]
     out = []
     for i, (prop, nl) in enumerate([("analytic", 10), ("analytic", 100), ("rejection", 50), ("flow", 50), ("flow", 100),
@@ -485,6 +488,9 @@ def real_cases(chk):
                 "reparameterisations": {"x2": "default", "x0": "default"}, "max_iteration": 400})
     out.append({"kind": "real", "proposal": "flow", "nlive": 60, "seed": 201 + chk.seed, "stopping": 1.0, "max_epochs": 20,
                 "maximum_uninformed": 60, "full_every": 50, "variant": "flat-corner", "max_iteration": 400})
+    for j, nl in enumerate((30, 80)):
+        out.append({"kind": "real", "proposal": "rejection", "nlive": nl, "seed": 210 + j + chk.seed, "stopping": 1.0,
+                    "full_every": 50, "variant": "nan-wide", "max_iteration": 300, "dims": 2 + j})
     return out
 
 
